@@ -33,6 +33,7 @@ func runEngineN(p *Prog, o *obls) {
 		fn *ssa.Function
 	}
 	nilStores := map[*types.Var][]site{}
+	invokes := map[*types.Var][]site{}
 	mapUpdates := map[*types.Var][]site{}
 	nilChecks := map[*types.Var][]site{}
 	derefs := map[*types.Var][]site{}
@@ -86,6 +87,11 @@ func runEngineN(p *Prog, o *obls) {
 				}
 			case ssa.CallInstruction:
 				cc := x.Common()
+				if cc.IsInvoke() {
+					if fv, _ := fieldOfLoad(cc.Value); fv != nil {
+						invokes[fv] = append(invokes[fv], site{in, fn})
+					}
+				}
 				if sc := cc.StaticCallee(); sc != nil && sc.Signature.Recv() != nil && len(cc.Args) > 0 {
 					if _, isPtr := sc.Signature.Recv().Type().(*types.Pointer); isPtr {
 						if fv, _ := fieldOfLoad(cc.Args[0]); fv != nil {
@@ -207,6 +213,75 @@ func runEngineN(p *Prog, o *obls) {
 				o.bad("N2", fk, p.instrPos(ns[0].in), fmt.Sprintf("the field is set to nil at %s and tested against nil at %s, but is dereferenced without such a test at %s: that use panics when it runs after the reset", p.instrPos(ns[0].in), p.instrPos(nilChecks[fv][0].in), strings.Join(dedupe(bad), ", ")))
 			} else {
 				o.ok("N2", fk, p.instrPos(ns[0].in), fmt.Sprintf("set to nil after construction and tested at %d place(s); all %d dereference(s) follow a test", len(nilChecks[fv]), len(derefs[fv])))
+			}
+		}
+	}
+	// N2, lifecycle form: what Unbind or Close set to nil, the packet path does not use untested. The writer or reader
+	// a Bind call returned stays callable after Unbind (a write in flight, a straggler) and works on the same per-stream
+	// object: a pointer or interface field that a lifecycle method resets "to release it" is dereferenced by the next
+	// packet — a nil-pointer panic in the caller's Write, with the stream's mutex still held. For every pointer or
+	// interface field assigned nil in a method named Unbind*/Close*/Stop*: every use of it (field access through it,
+	// method call on it) in a per-packet closure or a function reachable from one follows a nil test — whether or not
+	// anything else in the code ever tests it.
+	{
+		closures, _ := p.PktClosures()
+		var roots []*ssa.Function
+		for _, c := range closures {
+			roots = append(roots, c.Fn)
+		}
+		onPacketPath := reachableFuncs(p, roots, false)
+		for _, fv := range fields {
+			switch fv.Type().Underlying().(type) {
+			case *types.Pointer, *types.Interface:
+			default:
+				continue
+			}
+			var resetAt []string
+			for _, ns := range nilStores[fv] {
+				top := ns.fn
+				for top.Parent() != nil {
+					top = top.Parent()
+				}
+				if nm := top.Name(); strings.HasPrefix(nm, "Unbind") || strings.HasPrefix(nm, "Close") || strings.HasPrefix(nm, "Stop") {
+					resetAt = append(resetAt, fmt.Sprintf("%s (in %s)", p.instrPos(ns.in), shortCallee(funcKey(top))))
+				}
+			}
+			if len(resetAt) == 0 {
+				continue
+			}
+			if _, isPtr := fv.Type().Underlying().(*types.Pointer); isPtr && len(nilChecks[fv]) > 0 {
+				continue // judged above
+			}
+			var bad []string
+			uses := 0
+			for _, d := range append(append([]site{}, derefs[fv]...), invokes[fv]...) {
+				if !onPacketPath[d.fn] {
+					continue
+				}
+				uses++
+				var loaded ssa.Value
+				switch x := d.in.(type) {
+				case *ssa.FieldAddr:
+					loaded = x.X
+				case ssa.CallInstruction:
+					if x.Common().IsInvoke() {
+						loaded = x.Common().Value
+					} else {
+						loaded = x.Common().Args[0]
+					}
+				}
+				if loaded == nil || guardedAt(d.in, loaded) {
+					continue
+				}
+				bad = append(bad, fmt.Sprintf("%s (in %s)", p.instrPos(d.in), shortCallee(funcKey(d.fn))))
+			}
+			fk := fieldKeyAddr(nilStores[fv][0].in.(*ssa.Store).Addr.(*ssa.FieldAddr)) + ":after-unbind"
+			if len(bad) > 0 {
+				sort.Strings(bad)
+				sort.Strings(resetAt)
+				o.bad("N2", fk, strings.Fields(resetAt[0])[0], fmt.Sprintf("the field is set to nil at %s and used on the packet path without a nil test at %s: a packet written or read through the binding after that lifecycle call panics in the caller", strings.Join(dedupe(resetAt), ", "), strings.Join(dedupe(bad), ", ")))
+			} else if uses > 0 {
+				o.ok("N2", fk, strings.Fields(resetAt[0])[0], fmt.Sprintf("set to nil by a lifecycle method; its %d use(s) on the packet path each follow a nil test", uses))
 			}
 		}
 	}
